@@ -931,6 +931,26 @@ def run(ctx):
                f"CONECT records must carry the atom serial numbers as they are written in the ATOM records (`{serial.id}`): with hybrid-36 "
                "or more than 99999 atoms the raw ids have 6 digits, shift the 5-character fields and name other atoms", c.lineno)
 
+    # every index / cached value derived from the lines is rebuilt when set_structure() replaces them
+    from ..lints import derived_state_refreshed
+    derived_state_refreshed(ctx, FILE, "PDBFile", "R5.derived-state-refreshed")
+    # the refusing guards of _check_pdb_compatibility hold in BOTH id modes: only the checks of the ids themselves may depend on hybrid36
+    from .. import facts as _fx
+    from ..exprnorm import spec as _sp
+    cpc = src.func("_check_pdb_compatibility")
+    n_g = 0
+    for r_ in [x for x in ast.walk(cpc) if isinstance(x, ast.Raise)]:
+        known = _fx.facts_at(cpc, r_)
+        mode_dep = _sp("hybrid36") in known or _sp("not hybrid36") in known
+        about_ids = any(isinstance(x, ast.Attribute) and x.attr in ("res_id", "atom_id") for st in ast.walk(cpc) if isinstance(st, ast.If)
+                        and any(b is r_ for b in st.body) for x in ast.walk(st.test))
+        n_g += 1
+        ctx.ob("R4.guard-in-both-id-modes", FILE, "_check_pdb_compatibility", f"refusal at +{r_.lineno - cpc.lineno}: " + ("mode dependent" if mode_dep else "unconditional"),
+               (not mode_dep) or about_ids,
+               "this refusal only runs for one value of hybrid36 although the column it protects (coordinates, B-factor, occupancy, names) "
+               "has the same width in both modes: with the other mode an over-wide value shifts all following columns", r_.lineno)
+    ctx.floor("compatibility-refusals", n_g, 10)
+
     # ---------------- R5 lines reset, ID wrap ------------------------------
     resets = [n.id for n in cfg.nodes if n.ast is not None and isinstance(n.ast, ast.Assign)
               and any(dotted(t) == "self.lines" for t in n.ast.targets)
@@ -1089,6 +1109,11 @@ def _m(name, old, new, rule, q=None, rel=FILE, kind="break"):
 
 
 MUTANTS = [
+    _m("coordinate-check-only-without-hybrid36", "            raise BadStructureError(\"Atom IDs below -9999 exceed 5 characters\")\n    for i, coord_name in enumerate([\"x\", \"y\", \"z\"]):\n        # Check the values as they are written, i.e. after rounding\n        n_coord_digits = number_of_integer_digits(np.round(array.coord[..., i], 3))\n        if n_coord_digits > 4:\n            raise BadStructureError(\n                f\"4 pre-decimal columns for {coord_name}-coordinates are \"\n                f\"available, but array would require {n_coord_digits}\"\n            )\n",
+       "            raise BadStructureError(\"Atom IDs below -9999 exceed 5 characters\")\n        for i, coord_name in enumerate([\"x\", \"y\", \"z\"]):\n            n_coord_digits = number_of_integer_digits(np.round(array.coord[..., i], 3))\n            if n_coord_digits > 4:\n                raise BadStructureError(\n                    f\"4 pre-decimal columns for {coord_name}-coordinates are \"\n                    f\"available, but array would require {n_coord_digits}\"\n                )\n",
+       "R4.guard-in-both-id-modes"),
+    _m("model-length-memoised", "        n_models = len(self._model_start_i)\n        length = None\n", "        if getattr(self, \"_model_length\", None) is not None:\n            return self._model_length\n        self._model_length = None\n        n_models = len(self._model_start_i)\n        length = None\n",
+       "R5.derived-state-refreshed"),
     _m("conect-raw-ids", "            self._set_bonds(BondList(array.array_length(), bond_array), pdb_atom_id)\n",
        "            self._set_bonds(BondList(array.array_length(), bond_array), atom_id)\n", "R1.conect-serials"),
     _m("digits-helper-drops-nan", "    if len(values) == 0:\n        return 0\n", "    values = values[~np.isnan(values)]\n    if len(values) == 0:\n        return 0\n",
